@@ -1,26 +1,33 @@
-"""Per-property check configuration for vcheck.py."""
+"""Per-property check configuration for vcheck.py: one JSON file per property under /verif/checks/."""
+import glob, json, os
+
+VERIF = os.path.dirname(os.path.dirname(os.path.abspath(__file__)))
 
 VARIANTS = {
-    # kind=core: in-package overlay of harness files into /repo/vgirpc
+    # kind=core: in-package overlay of harness files into <repo>/vgirpc
     "plain": {"kind": "core"},
     "leak": {"kind": "core", "tags": ["leakcheck"]},
     "race": {"kind": "core", "race": True},
     "shim": {"kind": "core", "shim": True, "shim_mode": "full"},
     "shimtime": {"kind": "core", "shim": True, "shim_mode": "time"},
+    # kind=module: in-module overlay for a nested module of the repository
+    "s3": {"kind": "module", "moddir": "vgirpc/s3", "harness": "s3"},
+    "gcs": {"kind": "module", "moddir": "vgirpc/gcs", "harness": "gcs"},
+    "otel": {"kind": "module", "moddir": "vgirpc/otel", "harness": "otel", "gomod": True},
 }
 
 A_ALPHABET = "only cases built from the listed alphabets up to the listed bounds are covered (small-scope claim)"
 A_OVERLAY = "harness is compiled into the package under test through go test -overlay from the current /repo working tree"
 
-NOT_APPLICABLE = {}
+PROPS = {}
+for _p in sorted(glob.glob(os.path.join(VERIF, "checks", "C*.json"))):
+    with open(_p) as _f:
+        _c = json.load(_f)
+    _c.setdefault("assumptions", [A_ALPHABET, A_OVERLAY])
+    PROPS[os.path.basename(_p)[:-5]] = _c
 
-PROPS = {
-    "C05": dict(
-        variant="plain", files=["zzv_c05_test.go"], test="TestVerif_C05",
-        assumptions=[A_ALPHABET, A_OVERLAY],
-    ),
-    "C28": dict(
-        variant="plain", files=["zzv_c28_test.go"], test="TestVerif_C28",
-        assumptions=[A_ALPHABET, A_OVERLAY],
-    ),
-}
+NOT_APPLICABLE = {}
+_na = os.path.join(VERIF, "checks", "not_applicable.json")
+if os.path.exists(_na):
+    with open(_na) as _f:
+        NOT_APPLICABLE = json.load(_f)
